@@ -318,6 +318,10 @@ def player_scenario(ctx, j):
                 durs = [ctx.real(f'dur{i}', 0, 3) for i in range(3)]
                 stretch = ctx.real('stretch', 0, 2) if j.get('stretch') else None
                 d = {'instrument': 'vplain', 'freq': lsp.Pseq([101.0, 102.0, 103.0]), 'dur': lsp.Pseq(list(durs))}
+                if j.get('tuplekey'):
+                    # one pattern assigns several keys at once (a tuple of names as key)
+                    d = {'instrument': 'vplain',
+                         ('freq', 'dur'): lsp.Pseq([(101.0 + i, du) for i, du in enumerate(durs)]), 'cutoff': 777.0}
                 if stretch is not None:
                     d['stretch'] = stretch
                 pat = evp.Pbind(d)
@@ -349,9 +353,10 @@ def player_scenario(ctx, j):
                                           'dur': lsp.Pseq(list(durs))})
             else:   # pdur
                 durs = [ctx.real(f'dur{i}', 0.25, 2) for i in range(3)]
-                total = ctx.real('total', 0.25, 5)
+                total = ctx.real('total', 0.25, 5) if not j.get('quant') else 64.0
                 pat = flp.Pdur(total, evp.Pbind({'instrument': 'vplain', 'freq': lsp.Pseq([101.0, 102.0, 103.0]),
-                                                 'dur': lsp.Pseq(list(durs))}))
+                                                 'dur': lsp.Pseq(list(durs))}),
+                                **({'quant': 0.5} if j.get('quant') else {}))
             info = {}
 
             def body():
@@ -379,6 +384,11 @@ def player_scenario(ctx, j):
                       'preceding deltas of its own timeline', data('time'))
         if len(snew) != len(expected):
             raise Violation(f'{len(snew)} events played, {len(expected)} expected', None, data('count'))
+        if j.get('tuplekey'):
+            for t, x in snew:
+                if dict(zip(x[5::2], x[6::2])).get('cutoff') != 777.0:
+                    raise Violation('a key defined after a tuple of names does not reach the event: '
+                                    f'{x[5:]}', None, data('tuplekey'))
     elif form == 'pmono':
         if len(snew) != 1:
             raise Violation(f'Pmono created {len(snew)} synths', None, data('mono-count'))
@@ -410,6 +420,13 @@ def player_scenario(ctx, j):
         whole = R(durs[0]) + R(durs[1]) + R(durs[2])
         ctx.prove(z3.Implies(whole >= R(total), R(end_time) == start + R(total)),
                   'Pdur: the player does not end at start + requested total', data('pdur-total'))
+        if j.get('quant'):
+            # the pattern is shorter than the total: the player ends on the next multiple of quant (0.5)
+            span = R(end_time) - start
+            k = z3.ToInt(span * 2)
+            ctx.prove(z3.And(span == z3.ToReal(k) / 2, whole <= span, span < whole + 0.5),
+                      'Pdur with quant: the player does not end at the pattern\'s length rounded up to the next '
+                      'multiple of quant', data('pdur-quant'))
     ctx.note('player:' + form)
     return {'job': j, 'events': len(snew)}
 
@@ -540,7 +557,8 @@ def main(tier, seed):
                 jobs.append(dict(kind='play', inst=inst, present=present, add_action=aa, rest=0))
         jobs.append(dict(kind='play', inst=inst, present=['amp'], add_action=None, rest=1))
     jobs += [dict(kind='player', form='pbind', stretch=0), dict(kind='player', form='pbind', stretch=1),
-             dict(kind='player', form='ppar'), dict(kind='player', form='pdur'), dict(kind='player', form='pmono')]
+             dict(kind='player', form='ppar'), dict(kind='player', form='pdur'), dict(kind='player', form='pmono'),
+             dict(kind='player', form='pbind', tuplekey=True), dict(kind='player', form='pdur', quant=True)]
     for r in run_jobs('vf.props.c14', 'job', jobs, 'nrt'):
         chk.add('events', r)
     chk.require_notes('events', ['chain:degree', 'chain:note', 'chain:midinote', 'chain:freq', 'chain:none', 'ampdur',
